@@ -481,6 +481,12 @@ enum P {
     Loc(usize, String),
     /// call of the user function with that index
     Call(usize, String, Vec<P>),
+    /// list literal and the foreign list functions `head`, `tail`, `cons`, `len`
+    Lst(Vec<P>),
+    Head(Box<P>),
+    Tail(Box<P>),
+    Cons(Box<P>, Box<P>),
+    Len(Box<P>),
 }
 
 /// a top-level definition
@@ -492,7 +498,7 @@ enum D {
 }
 
 #[derive(Clone, Debug, PartialEq)]
-enum MTy { Dim(String), Scalar, Bool }
+enum MTy { Dim(String), Scalar, Bool, List(Box<MTy>) }
 
 impl P {
     fn src(&self) -> String { self.src_with(&[]) }
@@ -513,6 +519,11 @@ impl P {
             P::If(c, t, e) => format!("(if {} then {} else {})", c.src_with(subst), t.src_with(subst), e.src_with(subst)),
             P::Loc(i, n) => subst.get(*i).cloned().unwrap_or_else(|| n.clone()),
             P::Call(_, n, args) => format!("{}({})", n, args.iter().map(|a| a.src_with(subst)).collect::<Vec<_>>().join(", ")),
+            P::Lst(es) => format!("[{}]", es.iter().map(|a| a.src_with(subst)).collect::<Vec<_>>().join(", ")),
+            P::Head(a) => format!("head({})", a.src_with(subst)),
+            P::Tail(a) => format!("tail({})", a.src_with(subst)),
+            P::Cons(a, l) => format!("cons({}, {})", a.src_with(subst), l.src_with(subst)),
+            P::Len(a) => format!("len({})", a.src_with(subst)),
         }
     }
     fn sexpr(&self, units: &Units) -> String {
@@ -531,6 +542,14 @@ impl P {
                 let chain = args.iter().rev().fold("(noarg)".to_string(), |acc, a| format!("(arg {} {})", a.sexpr(units), acc));
                 format!("(call {} {})", f, chain)
             }
+            P::Lst(es) => {
+                let chain = es.iter().rev().fold("(noarg)".to_string(), |acc, a| format!("(arg {} {})", a.sexpr(units), acc));
+                format!("(lst {})", chain)
+            }
+            P::Head(a) => format!("(head {})", a.sexpr(units)),
+            P::Tail(a) => format!("(tail {})", a.sexpr(units)),
+            P::Cons(a, l) => format!("(cons {} {})", a.sexpr(units), l.sexpr(units)),
+            P::Len(a) => format!("(len {})", a.sexpr(units)),
         }
     }
     fn count_nodes(&self, out: &mut Out) {
@@ -538,13 +557,16 @@ impl P {
             P::Num(_) => "num", P::Unit(..) => "unit", P::Var(..) => "var", P::Neg(_) => "neg", P::Bin(op, ..) => op,
             P::Pow(..) => "pow", P::Not(_) => "not", P::Bool(_) => "bool", P::If(..) => "if",
             P::Loc(..) => "loc", P::Call(..) => "call",
+            P::Lst(..) => "lst", P::Head(..) => "head", P::Tail(..) => "tail", P::Cons(..) => "cons", P::Len(..) => "len",
         };
         out.count(&format!("mprog_node:{}", k));
         match self {
             P::Neg(a) | P::Pow(a, _, _) | P::Not(a) => a.count_nodes(out),
             P::Bin(_, a, b) => { a.count_nodes(out); b.count_nodes(out); }
             P::If(c, t, e) => { c.count_nodes(out); t.count_nodes(out); e.count_nodes(out); }
-            P::Call(_, _, args) => { for a in args { a.count_nodes(out); } }
+            P::Call(_, _, args) | P::Lst(args) => { for a in args { a.count_nodes(out); } }
+            P::Head(a) | P::Tail(a) | P::Len(a) => a.count_nodes(out),
+            P::Cons(a, l) => { a.count_nodes(out); l.count_nodes(out); }
             _ => {}
         }
     }
@@ -606,6 +628,36 @@ impl<'a> MGen<'a> {
             MTy::Dim(d) => self.of_dim(rng, d, depth),
             MTy::Scalar => self.scalar(rng, depth),
             MTy::Bool => self.cond(rng, depth),
+            MTy::List(el) => self.list_of(rng, el, depth),
+        }
+    }
+    /// a list expression with elements of type `el`
+    fn list_of(&self, rng: &mut Rng, el: &MTy, depth: usize) -> P {
+        let t = MTy::List(Box::new(el.clone()));
+        if rng.chance(1, 3) {
+            if let Some(v) = self.var_of(rng, &t) { return v; }
+        }
+        if depth == 0 {
+            let n = rng.below(3);
+            return P::Lst((0..n).map(|_| self.of_ty(rng, el, 0)).collect());
+        }
+        let d = depth - 1;
+        match rng.below(8) {
+            0 | 1 | 2 => { let n = rng.below(4); P::Lst((0..n).map(|_| self.of_ty(rng, el, d)).collect()) }
+            3 | 4 => P::Cons(bx(self.of_ty(rng, el, d)), bx(self.list_of(rng, el, d))),
+            5 => P::Tail(bx(self.list_of(rng, el, d))),
+            6 => { if let Some(c) = self.call_of(rng, &t, d) { c } else { P::Lst(vec![self.of_ty(rng, el, d)]) } }
+            _ => P::If(bx(self.cond(rng, d)), bx(self.list_of(rng, el, d)), bx(self.list_of(rng, el, d))),
+        }
+    }
+    /// `head` of a list of that element type, if the dice say so
+    fn head_of(&self, rng: &mut Rng, el: &MTy, depth: usize) -> Option<P> {
+        let t = MTy::List(Box::new(el.clone()));
+        let has_var = self.vars.iter().chain(self.locals.iter()).any(|(_, vt)| vt == &t);
+        if (has_var && rng.chance(1, 3)) || rng.chance(1, 20) {
+            Some(P::Head(bx(self.list_of(rng, el, depth.saturating_sub(1)))))
+        } else {
+            None
         }
     }
     /// a unit expression (no numbers) of the dimension class `dim`
@@ -628,6 +680,9 @@ impl<'a> MGen<'a> {
         let t = MTy::Dim(dim.clone());
         if depth > 0 && rng.chance(1, 6) {
             if let Some(c) = self.call_of(rng, &t, depth - 1) { return c; }
+        }
+        if depth > 0 {
+            if let Some(h) = self.head_of(rng, &t, depth) { return h; }
         }
         if depth == 0 || rng.chance(1, 4) {
             if rng.chance(1, 3) || (!self.locals.is_empty() && rng.chance(1, 2)) {
@@ -656,6 +711,15 @@ impl<'a> MGen<'a> {
     fn scalar(&self, rng: &mut Rng, depth: usize) -> P {
         if depth > 0 && rng.chance(1, 8) {
             if let Some(c) = self.call_of(rng, &MTy::Scalar, depth - 1) { return c; }
+        }
+        if depth > 0 {
+            if let Some(h) = self.head_of(rng, &MTy::Scalar, depth) { return h; }
+            // the length of some list in scope
+            let lists: Vec<MTy> = self.vars.iter().chain(self.locals.iter()).filter_map(|(_, t)| if let MTy::List(_) = t { Some(t.clone()) } else { None }).collect();
+            if !lists.is_empty() && rng.chance(1, 4) {
+                let lt = rng.pick(&lists).clone();
+                if let MTy::List(el) = &lt { return P::Len(bx(self.list_of(rng, el, depth - 1))); }
+            }
         }
         if depth == 0 || rng.chance(1, 3) {
             if rng.chance(1, 3) || (!self.locals.is_empty() && rng.chance(1, 2)) {
@@ -732,6 +796,24 @@ fn parse_p(units: &Units, names: &[String], toks: &mut std::iter::Peekable<std::
         "true" => P::Bool(true),
         "false" => P::Bool(false),
         "neg" => P::Neg(bx(parse_p(units, names, toks)?)),
+        "head" => P::Head(bx(parse_p(units, names, toks)?)),
+        "tail" => P::Tail(bx(parse_p(units, names, toks)?)),
+        "len" => P::Len(bx(parse_p(units, names, toks)?)),
+        "cons" => { let a = parse_p(units, names, toks)?; let l = parse_p(units, names, toks)?; P::Cons(bx(a), bx(l)) }
+        "lst" => {
+            let mut es = Vec::new();
+            let mut closes = 0;
+            loop {
+                if toks.next()? != "(" { return None; }
+                match toks.next()?.as_str() {
+                    "noarg" => { if toks.next()? != ")" { return None; } break; }
+                    "arg" => { es.push(parse_p(units, names, toks)?); closes += 1; }
+                    _ => return None,
+                }
+            }
+            for _ in 0..closes { if toks.next()? != ")" { return None; } }
+            P::Lst(es)
+        }
         "not" => P::Not(bx(parse_p(units, names, toks)?)),
         "pow" => {
             let a = parse_p(units, names, toks)?;
@@ -763,7 +845,9 @@ fn rename_locs(e: &mut P, arity: usize) {
         P::Neg(a) | P::Pow(a, _, _) | P::Not(a) => rename_locs(a, arity),
         P::Bin(_, a, b) => { rename_locs(a, arity); rename_locs(b, arity); }
         P::If(c, t, f) => { rename_locs(c, arity); rename_locs(t, arity); rename_locs(f, arity); }
-        P::Call(_, _, args) => { for a in args { rename_locs(a, arity); } }
+        P::Call(_, _, args) | P::Lst(args) => { for a in args { rename_locs(a, arity); } }
+        P::Head(a) | P::Tail(a) | P::Len(a) => rename_locs(a, arity),
+        P::Cons(a, l) => { rename_locs(a, arity); rename_locs(l, arity); }
         _ => {}
     }
 }
@@ -833,7 +917,9 @@ fn probe_nonfinite(c: &numbat::Context, e: &P, subst: &[String], fns: &[(Vec<Str
             let taken = eval_q(c, &format!("if {} then 1 else 0", c0.src_with(subst)));
             match taken { Some(v) if v == 1.0 => vec![c0, t], Some(_) => vec![c0, f], None => vec![c0] }
         }
-        P::Call(_, _, args) => args.iter().collect(),
+        P::Call(_, _, args) | P::Lst(args) => args.iter().collect(),
+        P::Head(a) | P::Tail(a) | P::Len(a) => vec![a],
+        P::Cons(a, l) => vec![a, l],
         _ => vec![],
     };
     for ch in children {
@@ -863,6 +949,26 @@ fn probe_nonfinite(c: &numbat::Context, e: &P, subst: &[String], fns: &[(Vec<Str
     match eval_q(c, &e.src_with(subst)) { Some(v) => !v.is_finite(), None => false }
 }
 
+/// NaN canonicalisation of every `q <bits>` inside a list text
+fn canon_nan_all(s: &str) -> String {
+    let mut out_s = String::new();
+    let mut rest = s;
+    while let Some(p) = rest.find("q ") {
+        out_s.push_str(&rest[..p + 2]);
+        let after = &rest[p + 2..];
+        let hex: String = after.chars().take(16).collect();
+        if hex.len() == 16 && hex.chars().all(|c| c.is_ascii_hexdigit()) {
+            let v = f64::from_bits(u64::from_str_radix(&hex, 16).unwrap_or(0));
+            out_s.push_str(&if v.is_nan() { "7ff8000000000000".to_string() } else { hex.clone() });
+            rest = &after[16..];
+        } else {
+            rest = after;
+        }
+    }
+    out_s.push_str(rest);
+    out_s
+}
+
 /// one program through the interpreter, definition by definition; the answer line of the implementation
 fn run_mprog(ctx: &numbat::Context, units: &Units, out: &mut Out, prog: &[D]) {
     let req = format!("mprog {}", prog.iter().map(|d| match d {
@@ -888,14 +994,32 @@ fn run_mprog(ctx: &numbat::Context, units: &Units, out: &mut Out, prog: &[D]) {
                 Some(name) => match c.verif_raw_global_quantity(name) {
                     // (the conversion target kept for display, `… -> q …`, is not part of the model's quantity)
                     Some(q) => answers.push(canon_nan(show_quantity(&q).split(" -> ").next().unwrap_or(""))),
-                    None => answers.push("bool".into()),
+                    None => {
+                        let raw = c.verif_raw_global_value(name).unwrap_or_default();
+                        if raw.starts_with("List<") {
+                            // drop the display targets of the elements: ` -> q … ` up to the closing parenthesis
+                            let mut out_s = String::new();
+                            let mut rest = raw.as_str();
+                            while let Some(p) = rest.find(" -> ") {
+                                out_s.push_str(&rest[..p]);
+                                let after = &rest[p..];
+                                let end = after.find(')').unwrap_or(after.len());
+                                rest = &after[end..];
+                            }
+                            out_s.push_str(rest);
+                            answers.push(canon_nan_all(&out_s));
+                        } else {
+                            answers.push("bool".into());
+                        }
+                    }
                 },
             },
             Ok(Err(err)) => {
                 match *err {
                     NumbatError::RuntimeError(ref r) => {
                         let t = format!("{}", r);
-                        answers.push(if t.contains("Division by zero") { "err divzero".into() }
+                        answers.push(if matches!(r.kind, RuntimeErrorKind::EmptyList) { "err emptylist".into() }
+                            else if t.contains("Division by zero") { "err divzero".into() }
                             else if t.contains("can not be converted") { "err incompatible".into() }
                             else if t.contains("Non-rational") { "err nonrational".into() }
                             else { format!("err runtime {}", t).replace('\n', " ") });
@@ -959,7 +1083,7 @@ fn run_mprog(ctx: &numbat::Context, units: &Units, out: &mut Out, prog: &[D]) {
 fn main() {
     let args = Args::parse();
     let mut out = Out::new(&args);
-    out.rule = "stream `mprog`: programs of 2-8 let/fn definitions in the fragment of program_soundness (expressions over numbers, units in any spelling, earlier globals, parameters, + - * / neg, constant powers, conversions to unit expressions — one target in forty is the literal 0 —, comparisons, && || !, conditionals, calls of 1-3-parameter user functions — one in three recursive over a small counter, half of the others with 1-2 `where` clauses), run definition by definition, raw value of every new global compared bit for bit with the Lean model, and judged by the same oracle as: multi-statement programs (3-10 statements) generated type-directed over the prelude: let-bindings of expression trees (units in any alias/prefix spelling, + - * / neg, conversions, conditionals with comparisons incl. a polymorphic zero on either side, references to earlier globals, calls), powers with compile-time evaluated exponents (integer, fractional, composite arithmetic) followed by an addition at the statically computed exponent, inferred and annotated generic functions, where-clauses, generic structs with field access, lists with head/sum/maximum/mean/map/element_at, dimension and derived-unit definitions with annotated lets; plus the corpus (known-defect shapes). distinct = program text; non-trivial = at least two statements and accepted by the checker".into();
+    out.rule = "stream `mprog`: programs of 2-8 let/fn definitions in the fragment of program_soundness (expressions over numbers, units in any spelling, earlier globals, parameters, + - * / neg, constant powers, conversions to unit expressions — one target in forty is the literal 0 —, comparisons, && || !, conditionals, calls of 1-3-parameter user functions — one in three recursive over a small counter, half of the others with 1-2 `where` clauses; lists of scalars and of quantities with literals, head, tail, cons, len, recursion down a list), run definition by definition, raw value of every new global compared bit for bit with the Lean model, and judged by the same oracle as: multi-statement programs (3-10 statements) generated type-directed over the prelude: let-bindings of expression trees (units in any alias/prefix spelling, + - * / neg, conversions, conditionals with comparisons incl. a polymorphic zero on either side, references to earlier globals, calls), powers with compile-time evaluated exponents (integer, fractional, composite arithmetic) followed by an addition at the statically computed exponent, inferred and annotated generic functions, where-clauses, generic structs with field access, lists with head/sum/maximum/mean/map/element_at, dimension and derived-unit definitions with annotated lets; plus the corpus (known-defect shapes). distinct = program text; non-trivial = at least two statements and accepted by the checker".into();
     let ctx = prelude_ctx();
     let units = Units::load(&ctx);
     units.emit(&mut out);
@@ -1023,9 +1147,15 @@ fn main() {
             let depth = 1 + (k + j) % 4;
             // the type of the definition: half of them reuse the dimension of an earlier global
             let pick_ty = |g: &MGen, rng: &mut Rng| -> MTy {
-                match rng.below(8) {
+                match rng.below(9) {
                     0 => MTy::Bool,
                     1 | 2 => MTy::Scalar,
+                    8 => {
+                        // a list of scalars or of quantities of one dimension
+                        let earlier: Vec<String> = g.vars.iter().filter_map(|(_, t)| match t { MTy::Dim(d) => Some(d.clone()), MTy::List(el) => if let MTy::Dim(d) = &**el { Some(d.clone()) } else { None }, _ => None }).collect();
+                        let el = if rng.chance(1, 3) { MTy::Scalar } else if !earlier.is_empty() && rng.chance(1, 2) { MTy::Dim(rng.pick(&earlier).clone()) } else { MTy::Dim((*rng.pick(&g.dims)).clone()) };
+                        MTy::List(Box::new(el))
+                    }
                     _ => {
                         let earlier: Vec<String> = g.vars.iter().filter_map(|(_, t)| if let MTy::Dim(d) = t { Some(d.clone()) } else { None }).collect();
                         if !earlier.is_empty() && rng.chance(1, 2) { MTy::Dim(rng.pick(&earlier).clone()) } else { MTy::Dim((*rng.pick(&g.dims)).clone()) }
@@ -1040,7 +1170,15 @@ fn main() {
                 let recursive = rng.chance(1, 3);
                 let np = 1 + rng.below(3);
                 let mut ptys: Vec<MTy> = (0..np).map(|_| if rng.chance(1, 2) { ret.clone() } else { pick_ty(&g, &mut rng) }).collect();
-                if recursive { ptys[0] = MTy::Scalar; }
+                // a recursive function runs over a scalar counter or down a list
+                let over_list = recursive && rng.chance(1, 2);
+                if recursive {
+                    ptys[0] = if over_list {
+                        MTy::List(Box::new(if let MTy::List(el) = &ret { (**el).clone() } else if ret == MTy::Bool { MTy::Scalar } else { ret.clone() }))
+                    } else {
+                        MTy::Scalar
+                    };
+                }
                 let pnames: Vec<String> = (0..np).map(|i| format!("zp{}", i)).collect();
                 g.locals = pnames.iter().cloned().zip(ptys.iter().cloned()).collect();
                 // 0-2 `where` clauses over the parameters (and the earlier clauses); they are further locals of the body
@@ -1057,15 +1195,18 @@ fn main() {
                 let body = if recursive {
                     // if zp0 <= 0 then <base> else zfK(zp0 - 1, <args>)
                     let base = g.of_ty(&mut rng, &ret, depth.min(2));
-                    let mut cargs = vec![P::Bin("sub", bx(P::Loc(0, "zp0".into())), bx(P::Num(1.0)))];
+                    let mut cargs = vec![if over_list { P::Tail(bx(P::Loc(0, "zp0".into()))) } else { P::Bin("sub", bx(P::Loc(0, "zp0".into())), bx(P::Num(1.0))) }];
                     for t in ptys.iter().skip(1) { cargs.push(g.of_ty(&mut rng, t, 1)); }
                     let step = P::Call(f, name.clone(), cargs);
+                    let head_elem = P::Head(bx(P::Loc(0, "zp0".into())));
                     let wrapped = match &ret {
                         MTy::Bool => P::Not(bx(step)),
-                        MTy::Scalar => P::Bin("add", bx(step), bx(P::Num(1.0))),
-                        MTy::Dim(_) => P::Bin("add", bx(step), bx(base.clone())),
+                        MTy::Scalar => if over_list { P::Bin("add", bx(step), bx(head_elem)) } else { P::Bin("add", bx(step), bx(P::Num(1.0))) },
+                        MTy::Dim(_) => if over_list { P::Bin("add", bx(head_elem), bx(step)) } else { P::Bin("add", bx(step), bx(base.clone())) },
+                        MTy::List(el) => P::Cons(bx(if over_list { head_elem } else { g.of_ty(&mut rng, el, 1) }), bx(step)),
                     };
-                    P::If(bx(P::Bin("le", bx(P::Loc(0, "zp0".into())), bx(P::Num(0.0)))), bx(base), bx(wrapped))
+                    let stop = if over_list { P::Bin("eq", bx(P::Len(bx(P::Loc(0, "zp0".into())))), bx(P::Num(0.0))) } else { P::Bin("le", bx(P::Loc(0, "zp0".into())), bx(P::Num(0.0))) };
+                    P::If(bx(stop), bx(base), bx(wrapped))
                 } else {
                     g.of_ty(&mut rng, &ret, depth)
                 };
@@ -1078,7 +1219,7 @@ fn main() {
                     // calls generated from now on could pass an arbitrary scalar as the counter: take the function
                     // out of the pool
                     g.fns[f].2 = MTy::Dim("<never>".into());
-                    let mut cargs = vec![P::Num(rng.below(4) as f64)];
+                    let mut cargs = vec![if let MTy::List(el) = &ptys[0] { let n = rng.below(4); P::Lst((0..n).map(|_| g.of_ty(&mut rng, el, 1)).collect()) } else { P::Num(rng.below(4) as f64) }];
                     for t in ptys.iter().skip(1) { cargs.push(g.of_ty(&mut rng, t, 1)); }
                     let gname = format!("g{}", g.vars.len());
                     g.vars.push((gname.clone(), ret));
